@@ -102,100 +102,13 @@ def monitor(kind, steps):
     return bad, facts
 
 
-def run_case(kind, evs):
-    line = GL.encode_case(kind, evs)
-    tr, problems, steps = GL.run_impl_steps(line)
-    return line, tr, problems, steps
-
-
-def is_bad(kind, evs):
-    _, _, problems, steps = run_case(kind, evs)
-    return bool(monitor(kind, steps)[0])
-
-
 # ------------------------------------------------------------------ the check
 def run(ck):
     vlib.import_repo()
     ck.build([MODEL])
     ck.props()
-    rnd = random.Random(ck.seed)
     thorough = ck.tier == "thorough"
-    n_gen = 12000 if thorough else 700
-    histories = [(k, evs, "corpus") for k, evs in GL.corpus_cases()]
-    for _ in range(n_gen):
-        kind, evs, _, _ = GL.gen_history(rnd)
-        histories.append((kind, evs, "generated"))
-    if thorough:
-        for kind, depth in ((1, 8), (0, 8)):
-            for evs in GL.enumerate_small_scope(kind, depth, limit=60000):
-                histories.append((kind, evs, "exhaustive-depth-%d" % depth))
-
-    cases, impl_tr, impl_obs, meta = [], [], [], []
-    totals = {}
-    nviol = 0
-    for kind, evs, origin in histories:
-        line, tr, problems, steps = run_case(kind, evs)
-        cases.append(line)
-        impl_tr.append(tr)
-        impl_obs.append(GL.flatten_obs(steps))
-        meta.append((kind, evs, origin))
-        ck.hist("origin:" + origin)
-        ck.hist("kind:" + ("ConsumerGroup" if kind == 1 else "Coordinator"))
-        for ev in evs:
-            ck.hist("ev:" + GL.EV_NAMES.get(ev[0], "?"))
-            if ev[0] in (E_LOOKUP, E_META, E_JOIN, E_PARTS, E_SYNC, E_HBREPLY, E_LEAVE) and ev[2] >= 100:
-                ck.hist("fail:" + GL.KIND_NAMES[ev[2] - 100])
-        bad, facts = monitor(kind, steps)
-        for k, v in facts.items():
-            totals[k] = totals.get(k, 0) + v
-        for p in problems:
-            bad.append((-1, "outside the event/observable alphabet: " + p))
-        if bad and nviol < 3:
-            nviol += 1
-            small = GL.shrink_events(kind, evs, is_bad)
-            l2, t2, p2, s2 = run_case(kind, small)
-            ck.violation({"kind": "monitor", "failures": monitor(kind, s2)[0] or bad, "case_kind": kind, "events": small,
-                          "impl_trace": GL.pretty_trace(kind, small, t2), "case_line": l2, "origin": origin, "replay_op": "history"})
-        elif bad:
-            ck.violation({"kind": "monitor", "failures": bad[:3], "case_kind": kind, "events": evs, "case_line": line, "replay_op": "history"})
-
-    describe = lambda c: {"kind": c[0], "events": GL.pretty_trace(*GL.parse_events(c), tr=[])[:400] if False else c[:60]}
-    nontrivial = lambda c, o: sum(1 for x in o if x == -1) >= 4 and any(x in (8, 13) for x in o)
-    diffs, mo = ck.correspond(MODEL, MODULE, cases, impl_tr, "output trace of the real Coordinator/ConsumerGroup vs Model.Group.run (every event of every history)",
-                              nontrivial=nontrivial, describe=describe)
-    obs_cases = [[2 + c[0]] + c[1:] for c in cases]
-    mobs = ck.model(MODEL, obs_cases)
-    odiffs = [i for i, (a, b) in enumerate(zip(impl_obs, mobs)) if list(a) != GL.observable_part(b)]
-    st = ck.cov["correspondence"].setdefault("per-step observation vector (pending requests by kind, armed calls, heartbeat looper, live consumers, generation/member) vs Model.GroupObs.obs", {"cases": 0, "differences": 0, "in_coq_sample": 0})
-    st["cases"] += len(cases)
-    st["differences"] += len(odiffs)
-    ck.cov["evaluations"] += len(cases)
-    # the boolean form of the proved invariant, evaluated along the model runs (sanity of the statement, not of the code)
-    chk = ck.model(MODEL, [[4 + c[0]] + c[1:] for c in cases])
-    nfalse = sum(1 for v in chk for b in v if b != 1)
-    ck.cov["invariant_bits_false_on_model_runs"] = nfalse
-    if nfalse:
-        raise vlib.CheckAbort("Model.GroupObs.chk is false on a model run: the boolean mirror of the proved invariant is wrong")
-
-    for i in (diffs + odiffs)[:3]:
-        if ck.violations:
-            break
-        kind, evs, origin = meta[i]
-        # a difference alone is not a violation: look for a failing input around it (prefixes and one-event extensions)
-        found = None
-        for j in range(1, len(evs) + 1):
-            if is_bad(kind, evs[:j]):
-                found = evs[:j]
-                break
-        if found:
-            l2, t2, p2, s2 = run_case(kind, found)
-            ck.violation({"kind": "monitor (found from a correspondence difference)", "failures": monitor(kind, s2)[0], "case_kind": kind,
-                          "events": found, "impl_trace": GL.pretty_trace(kind, found, t2), "replay_op": "history"})
-        else:
-            ck.violation({"kind": "correspondence broken", "correspondence": "corr:group:" + ("trace" if i in diffs else "observations"),
-                          "theorems_no_longer_tied": TIED, "case_kind": kind, "events": evs,
-                          "impl_trace": GL.pretty_trace(kind, evs, impl_tr[i]), "model_trace": GL.pretty_trace(kind, evs, mo[i]),
-                          "impl_obs": impl_obs[i], "model_obs": GL.observable_part(mobs[i]), "replay_op": "history"}, no_input=True)
+    run_case = GL.check_histories(ck, monitor, TIED)
 
     # ---- residual finding F-C17-2: replay the witness of C17_nonkafka_idle_refuted on the real code
     wk, wev = GL.corpus_cases()[0]
@@ -206,20 +119,8 @@ def run(ck):
                "start() Deferred outstanding, nothing in flight, nothing scheduled, no heartbeat", {"events": wev, "case_kind": wk,
                "impl_trace": GL.pretty_trace(wk, wev, wtr), "obs": o, "replay_op": "history"})
 
-    # ---- documented delays: the float handed to callLater, bit for bit, with non-default and default constructor arguments
-    for delays, dflt in ((None, True), ({"initial_backoff_ms": 700, "retry_backoff_ms": 33, "fatal_backoff_ms": 12345.5, "heartbeat_interval_ms": 2500}, False)):
-        for kind, evs in GL.corpus_cases()[:10]:
-            tr2, probs = GL.run_impl(GL.encode_case(kind, evs), delays=delays, use_defaults=dflt)
-            for p in probs:
-                ck.violation({"kind": "delay", "what": p, "delays": delays or "defaults", "case_kind": kind, "events": evs, "replay_op": "history"})
     if thorough:
         ck.coqchk(["AV.Props.C17"])
-    ck.cov["monitor_totals"] = totals
-    ck.cov["rule"] = ("histories = hand-written corpus (one per theorem / repaired defect / residual finding) + state-aware seeded generator "
-                      "(random.Random(VERIF_SEED): replies and failures of every class for every pending request, timers and heartbeat ticks in any order, "
-                      "stop()/start() at random points, consumer failures and slow/failed shutdowns, 10% late/duplicate/foreign events)"
-                      + (" + every maximal sequence of implementation-enabled events up to depth 8 over a reduced alphabet" if thorough else "")
-                      + ". A history is non-trivial if it has >= 4 events and schedules a call or fires the start Deferred; distinct = distinct case lines.")
     ck.assumptions += [
         "coq/Model/Group.v is a hand-written transcription of afkak/_group.py:50-538,673-901 (tie = this run's trace + observation correspondence, not a proof)",
         "the partition Consumer is represented by its contract (start/shutdown/stop Deferreds) - stub in harness/props/group_lib.py; the KafkaClient by a scripted stand-in whose Deferreds the driver fires",
@@ -227,14 +128,8 @@ def run(ck):
         "timer delays: the model carries WHICH documented delay; the driver checks the float passed to callLater bit for bit against attr/1000.0",
         "C17_never_idle excludes histories in which a non-Kafka exception escaped _join_and_sync (finding F-C17-2) and says nothing after stop(); liveness is in event-order form (the armed call starts the join when the reactor fires it)",
     ]
-    ck.cov["trusted_base"] += ["correspondence harness harness/props/C17.py + group_lib.py + vlib.py", "extracted OCaml runner (ExtrOcamlBasic) cross-checked by vm_compute sample"]
+    ck.cov["trusted_base"] += ["harness/props/C17.py (monitors)"]
 
 
 def replay(rp):
-    kind, evs = rp["case_kind"], [tuple(tuple(x) if isinstance(x, list) and x and isinstance(x[0], list) else x for x in e) for e in rp["events"]]
-    evs = [tuple([list(map(tuple, x)) if isinstance(x, (list, tuple)) and x and isinstance(x[0], (list, tuple)) else x for x in e]) for e in evs]
-    line, tr, problems, steps = run_case(kind, evs)
-    print(GL.pretty_trace(kind, evs, tr))
-    bad, facts = monitor(kind, steps)
-    print("monitor:", bad or "no failure", "problems:", problems)
-    return 1 if (bad or problems) else 0
+    return GL.replay_history(rp, monitor)
